@@ -117,9 +117,9 @@ reg_split!(c05_reg_split_n3_p1, 3, 1, 2, 7);
 // @vp name=c05_reg_split_n3_p1_w01 prop=C05 tier=quick t=480 fns=DecisionTreeRegressor::find_best_split,quick_argsort_mut size=n=3,p=1 dom=x-lattice(0..3),y-lattice(-2..2),weights0..1,msl1..2,f32 stubs=traps,no_format
 reg_split!(c05_reg_split_n3_p1_w01, 3, 1, 1, 7);
 // every row present with weight 1..2 (total weight up to 6): the leaf-size guard is exercised with candidates on both sides
-// @vp name=c05_reg_split_n3_p1_w12 prop=C05 tier=quick t=480 fns=DecisionTreeRegressor::find_best_split,quick_argsort_mut size=n=3,p=1 dom=x-lattice(0..3),y-lattice(-2..2),weights1..2,msl1..2,f32 stubs=traps,no_format
+// @vp name=c05_reg_split_n3_p1_w12 prop=C05 tier=quick mem=24 t=480 fns=DecisionTreeRegressor::find_best_split,quick_argsort_mut size=n=3,p=1 dom=x-lattice(0..3),y-lattice(-2..2),weights1..2,msl1..2,f32 stubs=traps,no_format
 reg_split!(c05_reg_split_n3_p1_w12, 3, 1, 1, 2, 7);
-// @vp name=c05_reg_split_n2_p2 prop=C05 tier=quick t=480 fns=DecisionTreeRegressor::find_best_split,quick_argsort_mut size=n=2,p=2 dom=x-lattice(0..3),y-lattice(-2..2),weights0..2,msl1..2,f32 stubs=traps,no_format
+// @vp name=c05_reg_split_n2_p2 prop=C05 tier=quick mem=24 t=480 fns=DecisionTreeRegressor::find_best_split,quick_argsort_mut size=n=2,p=2 dom=x-lattice(0..3),y-lattice(-2..2),weights0..2,msl1..2,f32 stubs=traps,no_format
 reg_split!(c05_reg_split_n2_p2, 2, 2, 2, 6);
 // @vp name=c05_reg_split_n3_p2 prop=C05 tier=thorough t=3600 fns=DecisionTreeRegressor::find_best_split,quick_argsort_mut size=n=3,p=2 dom=x-lattice(0..3),y-lattice(-2..2),weights0..2,msl1..2,f32 stubs=traps,no_format
 reg_split!(c05_reg_split_n3_p2, 3, 2, 2, 7);
@@ -242,9 +242,9 @@ macro_rules! cls_split {
         }
     };
 }
-// @vp name=c05_cls_split_gini_n3 prop=C05 tier=quick t=480 fns=DecisionTreeClassifier::find_best_split,impurity,which_max,quick_argsort_mut size=n=3,p=1,2-classes dom=x-distinct-lattice(0..4),labels-symbolic,unit-weights,Gini,f32 stubs=traps,no_format
+// @vp name=c05_cls_split_gini_n3 prop=C05 tier=quick mem=24 t=480 fns=DecisionTreeClassifier::find_best_split,impurity,which_max,quick_argsort_mut size=n=3,p=1,2-classes dom=x-distinct-lattice(0..4),labels-symbolic,unit-weights,Gini,f32 stubs=traps,no_format
 cls_split!(c05_cls_split_gini_n3, 3, 1, SplitCriterion::Gini, true, 7);
-// @vp name=c05_cls_split_cerr_n3 prop=C05 tier=quick t=480 fns=DecisionTreeClassifier::find_best_split,impurity,which_max,quick_argsort_mut size=n=3,p=1,2-classes dom=x-distinct-lattice(0..4),labels-symbolic,unit-weights,ClassificationError,f32 stubs=traps,no_format
+// @vp name=c05_cls_split_cerr_n3 prop=C05 tier=quick mem=24 t=480 fns=DecisionTreeClassifier::find_best_split,impurity,which_max,quick_argsort_mut size=n=3,p=1,2-classes dom=x-distinct-lattice(0..4),labels-symbolic,unit-weights,ClassificationError,f32 stubs=traps,no_format
 cls_split!(c05_cls_split_cerr_n3, 3, 1, SplitCriterion::ClassificationError, false, 7);
 // @vp name=c05_cls_split_gini_n3_weighted prop=C05 tier=thorough t=3600 fns=DecisionTreeClassifier::find_best_split,impurity,which_max,quick_argsort_mut size=n=3,p=1,2-classes dom=x-distinct-lattice(0..4),labels-symbolic,weights0..2,Gini,f32 stubs=traps,no_format
 cls_split!(c05_cls_split_gini_n3_weighted, 3, 2, SplitCriterion::Gini, true, 7);
